@@ -11,6 +11,7 @@ import checks_domain
 import checks_numeric
 import checks_ma
 import checks_combine
+import checks_log
 
 CHECKS = {
     "C02": (lambda ctx: checks_core.run_core(ctx, "pre"), "model_checking"),
@@ -23,6 +24,7 @@ CHECKS = {
     "C15": (checks_ma.run_c15, "model_checking"),
     "C16": (checks_ma.run_c16, "model_checking"),
     "C17": (checks_combine.run, "model_checking"),
+    "C19": (checks_log.run, "exploration"),
     "C20": (checks_core.run_c20, "model_checking"),
     "C18": (checks_core.run_c18, "model_checking"),
     "C04": (checks_hist.run_c04, "model_checking"),
@@ -188,6 +190,13 @@ META["C17"] = {
     "text": "Per-agent files are parsed one by one (the spec reads each), combined under a forced discovery order, exported and "
             "re-parsed; TLC compares the combination with the union of its own readings and checks through digests that "
             "previously parsed and freshly created domains are untouched; problems likewise, including duplicates."}
+META["C19"] = {
+    "engine": "V(+M)", "design_ref": "DESIGN.md section 6 (C19), 10",
+    "note": "No design-level theorem: the spec is an oracle over an enumerated layout space; the lexer is trusted.",
+    "technique": "trace validation of MetricFFParser / ENHSPParser results against PlannerLog!PlanOf / Status on tokenised logs "
+                 "(plus a small TLC model of the oracle itself)",
+    "text": "Generated and shipped logs are parsed by the library; TLC recomputes status and plan from the tokenised lines and "
+            "compares action list, order, arguments and the written plan file."}
 NOT_YET = {}
 
 
